@@ -1,1 +1,6 @@
 """qv - property-based verification machinery for tmancal74/quantarhei."""
+import os as _os
+
+# single-threaded BLAS: small matrices only; 16 shards run side by side (must be set before numpy is imported)
+for _v in ("OMP_NUM_THREADS", "OPENBLAS_NUM_THREADS", "MKL_NUM_THREADS", "NUMEXPR_NUM_THREADS"):
+    _os.environ.setdefault(_v, "1")
